@@ -4,6 +4,24 @@ import vlib, daemon
 
 PID = 'C06'
 
+def uid_moves(script):
+    """input classification: some UID is added by one user, cancelled, and later added by another user"""
+    import re
+    state = {}      # uid -> ('added'|'cancelled', peer)
+    for c in script:
+        f = c.split('\t')
+        if f[0] not in ('A', 'AC'): continue
+        peer = int(f[1]); text = f[-1]
+        cancel = 'METHOD:CANCEL' in text
+        for u in re.findall(r'UID:([^\\]+)\\n', text):
+            st = state.get(u)
+            if cancel:
+                if st and st[1] == peer: state[u] = ('cancelled', peer)
+            else:
+                if st and st[0] == 'cancelled' and st[1] != peer: return True
+                if not st or st[0] == 'cancelled': state[u] = ('added', peer)
+    return False
+
 def run(tier, seed):
     t0 = time.time()
     wd = vlib.workdir(PID)
@@ -22,7 +40,7 @@ def run(tier, seed):
     for k in range(nh):
         kind = k % 4
         if kind == 3:   # 17 users: the dirty array overflows and chkpnta() writes every user that owns a task
-            users = tuple(2000 + i for i in range(17)); h = daemon.chk_history(rnd, users=users, uids=tuple('j%d' % i for i in range(12)), nreq=22)
+            users = tuple(2000 + i for i in range(17)); h = daemon.chk_history(rnd, users=users, uids=tuple('j%d' % i for i in range(12)), nreq=22, every_user=True)
         elif kind == 2: # fat tasks: several 4 KiB flushes per file
             h = daemon.chk_history(rnd, fat=True, nreq=6)
         else:
@@ -38,6 +56,11 @@ def run(tier, seed):
         for k in ks:
             jobs.append((hi, k, 'c')); jobs.append((hi, k, 'f'))
             if calls[k - 1]['call'] == 'write': jobs.append((hi, k, 's'))
+        if tier != 'thorough' and hi % 4 == 3:
+            # the all-users checkpoint keeps every user's file open and shares one print buffer between them:
+            # every one of its writes is a fault point, not a sample
+            for k in range(1, len(calls) + 1):
+                if k not in ks and calls[k - 1]['call'] == 'write': jobs.append((hi, k, 'f')); jobs.append((hi, k, 's'))
     def one(j):
         hi, k, mode = j
         r = daemon.chk_experiment(drv, spool, hist[hi][0], hist[hi][1], k or None, mode if k else None)
@@ -54,7 +77,7 @@ def run(tier, seed):
     for fn, k, g in v['bad'][:400]:
         rec = json.loads(vlib.getline(fn, k)); rec['script'] = hist[rec['hist']][0]
         calls = [e for e in rec['ev'] if e['e'] in ('Crash', 'Fail')]
-        derived = {'fault_call': calls[0]['call'] if calls else 'none', 'nusers': len(set(f['user'] for f in rec['files']))}
+        derived = {'fault_call': calls[0]['call'] if calls else 'none', 'nusers': len(set(f['user'] for f in rec['files'])), 'uid_moves_between_users': uid_moves(rec['script'])}
         bad.append((vlib.save_replay(PID, f'exp{g}.json', rec), dict(rec, **derived)))
     unlisted, listed = vlib.classify(PID, bad)
     ncrash = sum(1 for j in jobs if j[2] == 'c'); nfail = sum(1 for j in jobs if j[2] in ('f', 's'))
